@@ -35,6 +35,74 @@ def check(run, fx, tier, floors=True):
     loops.rule_loops(run, fx, "C01-f", floors)
     indexing.rule_index(run, fx, "C01-g", floors)
     overflow.rule_overflow(run, fx, "C01-e", floors)
+    rule_char_boundary(run, fx, "C01-h", floors)
+
+
+CHAR_BOUNDARY_FNS = ("String::truncate", "String::insert", "String::insert_str", "String::remove", "String::drain", "String::replace_range",
+                     "String::split_off", "str::<impl str>::split_at", "str::<impl str>::split_at_mut")
+ASCII_PREDICATES = ("is_ascii_alphanumeric", "is_ascii_alphabetic", "is_ascii_digit", "is_ascii_hexdigit", "is_ascii_graphic",
+                    "is_ascii_punctuation", "is_ascii_lowercase", "is_ascii_uppercase", "is_ascii")
+
+
+def rule_char_boundary(run, fx, rule, floors=True):
+    run.rule(rule, "std String/str operations that panic on a byte index that is not a char boundary (truncate, insert, remove, drain, "
+                   "replace_range, split_off, split_at) are applied only to strings that are ASCII by construction: the receiver is the "
+                   "collect() of a chars() chain through a filter whose closure is an is_ascii_* predicate (every byte index of an ASCII "
+                   "string is a char boundary), or the index is a constant 0 / the string's own len()")
+    import sym
+    n = 0
+    for b in fx.bodies:
+        for bi, t in b.calls():
+            p = t["callee"].get("rpath") or t["callee"].get("path") or ""
+            if not p.endswith(CHAR_BOUNDARY_FNS):
+                continue
+            n += 1
+            prov = sym.Prov(b)
+            recv = sym.strip(prov.op(t["args"][0]))
+            while recv[0] in ("ref", "deref"):
+                recv = sym.strip(recv[1])
+            why = None
+            if len(t["args"]) > 1:
+                ix = sym.strip(prov.op(t["args"][1]))
+                if ix[0] == "c" and ix[1] == 0:
+                    why = "index 0"
+            if why is None:
+                # receiver: a single-definition local assigned from collect(filter(chars(..), closure))
+                chain = [x for x in sym.walk(recv) if x[0] == "call"]
+                names = [(x[4] or x[1] or "") for x in chain]
+                if any(nm.endswith("Iterator::collect") for nm in names) and any(nm.endswith("Iterator::filter") for nm in names):
+                    ok = False
+                    for x in chain:
+                        if (x[4] or x[1] or "").endswith("Iterator::filter"):
+                            for a in x[2]:
+                                cl = closure_of(fx, b, a)
+                                if cl is not None and cl.calls() and all(
+                                        (tt["callee"].get("path") or "").split("::")[-1] in ASCII_PREDICATES for _, tt in cl.calls()):
+                                    ok = True
+                    if ok:
+                        why = "the string is collected from chars() filtered by an is_ascii_* predicate: ASCII only"
+            if why:
+                run.ok(rule, "%s in %s: %s" % (p.split("::")[-1], b.path, why))
+            else:
+                run.fail(rule, "charboundary|%s|%s" % (b.root, p.split("::")[-1]),
+                         "%s in %s may be called with a byte index inside a multi-byte character: the string is not shown to be ASCII" % (p, b.path),
+                         b.loc(t), ledger="explicit_panic")
+    if floors:
+        run.floor(rule, "char-boundary sensitive String operations", n, 1)
+
+
+def closure_of(fx, b, term):
+    """the closure body passed as this argument term (an aggregate of kind closure), if local"""
+    import sym
+    for x in sym.walk(term):
+        if x[0] == "agg" and x[1] == "closure":
+            # the driver names closure bodies <parent>::{closure#N}; the aggregate carries the def path in x[2] when known
+            name = x[2] if len(x) > 2 and isinstance(x[2], str) else None
+            if name:
+                cb = fx.body(name)
+                if cb is not None:
+                    return cb
+    return None
 
 
 def rule_panics(run, fx, rule, select, floors, floor_n=200):
